@@ -19,7 +19,7 @@ FALLBACK=0
 build() { # $1 = default|unimock
   local feat=""; [ "$1" = unimock ] && feat="--features unimock"
   local skips="" round new log="$VERIF/target/gensim-build-$1.log"
-  for round in 1 2 3 4 5 6 7 8; do
+  for round in 1 2 3 4 5 6 7 8 9 10 11 12 13 14 15 16; do
     # -A warnings: the container mapping below must see the locations of ERRORS only (a warning such
     # as `unconditional_recursion` points at exactly the functions a change mis-generates; dropping
     # those would hide the violation)
